@@ -189,6 +189,9 @@ class CoAPPairing(ZeroconfPairing):
         self, characteristics: Iterable[tuple[int, int, Any]]
     ) -> dict[tuple[int, int], dict[str, Any]]:
         await self._ensure_connected()
+        # the items are walked twice (the write, then the listener update) and indexed by
+        # position, so materialise whatever iterable the caller passed
+        characteristics = list(characteristics)
         response_status = await self.connection.write_characteristics(characteristics)
 
         listener_update: dict[tuple[int, int], dict[str, Any]] = {}
